@@ -22,20 +22,25 @@ func corporaFor(prop, tier string) []*Case {
 		add(CorpusGenerics(seed, tier))
 		add(CorpusFlags(seed, tier))
 		add(CorpusMulti(seed, tier))
+		add(CorpusRaw(seed, tier))
 	case "C02":
+		add(CorpusRaw(seed, tier))
 		add(CorpusTypes(seed, tier))
 		add(CorpusGenerics(seed, tier))
 		add(CorpusFlags(seed, tier))
 		add(CorpusMulti(seed, tier))
 		add(CorpusImports(seed, tier))
 	case "C09":
+		add(CorpusRaw(seed, tier))
 		add(CorpusGenerics(seed, tier))
 		add(CorpusFlags(seed, tier))
 	case "C10":
+		add(CorpusRaw(seed, tier))
 		add(CorpusTypes(seed, tier))
 		add(CorpusGenerics(seed, tier))
 		add(CorpusFlags(seed, tier))
 	case "C11":
+		add(CorpusRaw(seed, tier))
 		add(CorpusImports(seed, tier))
 		add(CorpusTypes(seed, tier))
 		add(CorpusFlags(seed, tier))
@@ -51,6 +56,7 @@ func corporaFor(prop, tier string) []*Case {
 	case "C16":
 		add(CorpusFlags(seed, tier))
 	case "C20":
+		add(CorpusRaw(seed, tier))
 		add(CorpusMulti(seed, tier))
 		add(CorpusFlags(seed, tier))
 	}
@@ -136,6 +142,9 @@ func runGen(prop, tier string, sc *core.Scratch, ev *core.Evidence, rep *core.Re
 			crashed++
 		}
 		p := preds[c.ID]
+		if c.NoPredict {
+			p = nil
+		}
 		if p != nil && c.Obs.Exit == "ok" && !p.Diverge && p.NFinals > 0 && !matchesPrediction(p, c.Obs) {
 			drift++
 			if drift <= 3 {
